@@ -262,6 +262,9 @@ def run(ctx):
     lemmas.use_long_pv_implies_visible_value(fx, res, "R12.1")
     lemmas.flat_map_lockstep(fx, res, "R12.1")
     lemmas.positionals_have_index(fx, res, "R12.1")
+    # ---------------- R12.6 the help-related settings documented as tree-wide are stored as global settings (shared rule R5.8)
+    from rules.c05 import global_setters
+    global_setters(fx, res, "R12.6", ["disable_help_flag", "disable_help_subcommand", "disable_version_flag", "hide_possible_values", "next_line_help", "disable_colored_help"])
     # ---------------- R12.3 help for the current level
     he = fx.body("clap_builder::parser::parser::Parser::help_err")
     okc = all(re.match(r"^self\.cmd", expr(he, c.args[0])) for c in he.calls_to(r"Command::write_help_err$", r"error::Error::display_help$"))
